@@ -257,12 +257,12 @@ InferredRound(r) ==
      P("inferred.steps[0][c]", "mapget", ~KeysMiss /\ KeyPresent(r, "skeys0")),
      PM("inferred." \o p \o "evals0.insert", "cinferred", L(p \o "evals0") >= Arity - 1),
      P("inferred." \o p \o "evals0.log2", "cinferred", IsPow2(L(p \o "evals0") + 1)),
-     P("inferred.betas[0]", "ncaps", L("ncaps") >= 1),
+     P("inferred.betas[0]", "cinferred", L("ncaps") >= 1),
      P("inferred.steps[1]", "mapget", L("nsteps") >= 2),
      P("inferred.steps[1][c]", "mapget", ~KeysMiss /\ KeyPresent(r, "skeys1")),
      PM("inferred." \o p \o "evals1.insert", "cinferred", L(p \o "evals1") >= Arity - 1),
      P("inferred." \o p \o "evals1.log2", "cinferred", IsPow2(L(p \o "evals1") + 1)),
-     P("inferred.betas[1]", "ncaps", L("ncaps") >= 2) >>
+     P("inferred.betas[1]", "cinferred", L("ncaps") >= 2) >>
 
 PathStep(f, c) ==
   IF adaptive THEN PM("decompress." \o f, "cinferred", L(f) >= c)
